@@ -23,7 +23,7 @@ def render(f, a, b, c):
     if f < 8: return f'F{f} {a} {b} {c}'
     if f == 8: return 'L' + 'x' * 150 + f' {a} {b} {c}'
     if f == 9: return 'M' + 'x' * 121 + f'{a}'
-    if f == 10: return 'W[' + str(b).rjust(a % 13) + f']{c}'
+    if f == 10: return 'W[' + str(b).rjust(a % 1100) + f']{c}'
     if f == 11: return f'P%|{a}|%{b}|{c}'
     if f == 12: return f'S {STRS[a % 4]} {b} {c}'
     if f == 13: return 'T' + STRS[b % 4][:a % 7] + f'|{c}'
@@ -73,6 +73,12 @@ def valid(h):
 def gen_history(rng, tier):
     h, n = [], 0
     def rec():
+        if rng.chance(1, 8):
+            # format 10 (star width) sized so that the formatted line has exactly L characters, L around the powers of two
+            # a fixed-size line buffer anywhere between the log and the reader would have
+            L = rng.choice([15, 16, 17, 31, 32, 33, 63, 64, 65, 127, 128, 129, 255, 256, 257, 511, 512, 513, 1023, 1024, 1025]) + rng.choice([0, 0, 0, -1, 1])
+            b, c = rng.below(1000), rng.choice([0, 7, 255])
+            return f'10 {L - 3 - len(str(c))} {b} {c}'
         return f'{rng.below(16) if rng.chance(1, 2) else rng.below(8)} {rng.choice([rng.below(1000), rng.below(13), 10 ** rng.below(8)])} {rng.below(1 << 32)} {rng.choice([0, 1, 255, 1 << 40, (1 << 64) - 1])}'
     def reads():
         ks = [0, 1, n - 1, n, 255, 256, 257, -1, -2, -256, 2147483647, -2147483648, min(n, 256) - 1, min(n, 256), rng.range(-300, 600)]
@@ -117,7 +123,7 @@ def harness(ctx):
     exe, log = ctx.cc('h_mlog', [os.path.join(vlib.VERIF, 'harness/h_mlog.c'), R + '/librfn/string.c', R + '/librfn/util.c', R + '/librfn/posix/time_posix.c'],
                       ['-I' + R + '/librfn'])
     if not exe:
-        raise vlib.Infra('mlog harness does not compile against /repo: ' + log[-1500:])
+        raise vlib.Unbuildable('mlog harness does not compile against /repo: ' + log[-1500:])
     return exe
 
 
@@ -133,6 +139,15 @@ def run(ctx):
     ctx.cov['traces_validated_against_impl'] = agreed
     ctx.cov['ops_total'] = sum(len(h) for h in hs)
     ctx.cov['histories_crossing_counter_fold'] = sum(1 for h in hs if any(l.startswith('sethead') for l in h))
+    lens = {}
+    for h in hs:
+        for l in h:
+            w = l.split()
+            if w[0] in ('log', 'nice'):
+                n = len(render(int(w[1]) & 15, int(w[2]), int(w[3]), int(w[4])))
+                k = '<=32' if n <= 32 else '33-62' if n < 63 else str(n) if n <= 65 else '66-126' if n < 127 else str(n) if n <= 129 else '130-254' if n < 255 else str(n) if n <= 257 else '>257'
+                lens[k] = lens.get(k, 0) + 1
+    ctx.cov['formatted_line_lengths'] = lens
     ctx.cov['histories_over_256_messages'] = sum(1 for h in hs if sum(1 for l in h if l.startswith('log')) > 256)
     ctx.sample({'history_prefix': hs[0][:8], 'length': len(hs[0])})
     ctx.sample({'history_prefix': hs[-1][:8], 'length': len(hs[-1])})
